@@ -17,7 +17,8 @@ EXPLANATION = ("Buffered byte streams: conservation of bytes by value flow - eve
                "computed from the buffer length in the same atomic section as the search that preceded it, is clamped at 0 and leaves a "
                "window of len(delimiter)-1 bytes; the size limit is tested after the search. Text streams: one incremental decoder and one "
                "incremental encoder per stream, created once, fed every chunk exactly once without final=True, only non-empty decodes are "
-               "returned, the encoded bytes are sent whole, both halves of TextStream share the encoding.")
+               "returned, the encoded bytes are sent whole, both halves of TextStream share the encoding."
+               " All classes of streams/text.py declare the same default encoding and error policy.")
 NOT_DECIDED = ("Codec behaviour (trusted), values of the arithmetic beyond the linear obligations, the byte order between feed_data() called "
                "while receive() is suspended and the chunk it is waiting for (ambiguous in the statement).")
 
